@@ -2019,7 +2019,13 @@ class Transport(threading.Thread, ClosingContextManager):
         self._expected_packet = tuple(ptypes)
 
     def _verify_key(self, host_key, sig):
-        key = self._key_info[self.host_key_type](Message(host_key))
+        try:
+            key = self._key_info[self.host_key_type](Message(host_key))
+        except SSHException:
+            raise
+        except Exception as e:
+            # eg ValueError from cryptography for impossible key parameters
+            raise SSHException("Invalid host key from server: {}".format(e))
         if key is None:
             raise SSHException("Unknown host key type")
         # The signature must have been made with the host key algorithm that
